@@ -278,6 +278,9 @@ func stripReturnValue(ps propertySet, key interface{}) (interface{}, propertySet
 	return stripChainReturnValue(top, top, top.chain, key)
 }
 
+// stripChainReturnValue never edits links in place: property owners such as
+// Cells are copied by value, so a chain link may be shared with copies of the
+// owner.  The links above the removed one are rebuilt instead.
 func stripChainReturnValue(top, parent *valueProperty, this_ propertySet, key interface{}) (interface{}, propertySet) {
 	this, ok := this_.(*valueProperty)
 	if !ok {
@@ -286,12 +289,20 @@ func stripChainReturnValue(top, parent *valueProperty, this_ propertySet, key in
 	}
 	if this.key == key {
 		// caller ensures that this != top/parent
-		parent.chain = this.chain
-		this.chain = nil
-		return this.val, top
+		return this.val, rebuildChainWithout(top, this)
 	}
 	if this.chain == nil || this.chain == noProperty {
 		return nil, top
 	}
 	return stripChainReturnValue(top, this, this.chain, key)
+}
+
+// rebuildChainWithout returns a copy of the chain starting at from, minus the
+// link drop (which must be in it); links below drop are shared, not copied.
+func rebuildChainWithout(from, drop *valueProperty) propertySet {
+	if from == drop {
+		return drop.chain
+	}
+	next, _ := from.chain.(*valueProperty)
+	return &valueProperty{chain: rebuildChainWithout(next, drop), key: from.key, val: from.val}
 }
